@@ -17,3 +17,9 @@
 (define-fun-rec anyRejected ((h (Array Int Val)) (ts RLst) (s Val)) Bool
   (ite ((_ is RNil) ts) false (or (mergeErr (select h (rhd ts)) s) (anyRejected h (rtl ts) s))))
 (declare-fun parentsOf ((Array Int RLst) (Array Int String) (Array Int RLst) Int Int) RLst)
+; wfDocs ds top : representation invariant of the stored document list: distinct, non-nil objects that exist (below top)
+(define-fun-rec wfDocs ((ds RLst) (top Int)) Bool
+  (and (rdistinct ds) (forall ((r Int)) (=> (rmem r ds) (and (not (= r 0)) (< r top))))))
+; freshDocs ds lo hi : distinct, non-nil objects allocated in [lo, hi)
+(define-fun-rec freshDocs ((ds RLst) (lo Int) (hi Int)) Bool
+  (and (rdistinct ds) (forall ((r Int)) (=> (rmem r ds) (and (not (= r 0)) (>= r lo) (< r hi))))))
